@@ -67,6 +67,11 @@ KEYWORDS = {"let", "mut", "ref", "if", "else", "match", "return", "for", "in", "
             "true", "false", "move", "break", "continue", "where", "impl", "use", "crate", "super", "dyn", "unsafe", "const", "static"}
 
 
+def same_text(a, b):
+    """the statement text, whatever ends it (`;` at the end of a statement, `,` in an argument list, nothing)"""
+    return a.rstrip(";, ") == b.rstrip(";, ")
+
+
 def shape(text):
     """The statement with the names of values blanked: an identifier that is not a keyword, not a path segment
     (`a::b`), not called (`f(`, `m!`), not a generic (`T<`), and not a field or method (after `.`) becomes `_`.
@@ -95,12 +100,12 @@ for s in sites:
     if cls == "unclassified":
         # the same statement in another function of the same file (code moved into a helper, a function
         # renamed): it keeps its classification if all classified statements of that text in the file agree
-        same = {k["class"] for k in known if k["file"] == s["file"] and k["text"] == s["text"]}
+        same = {k["class"] for k in known if k["file"] == s["file"] and same_text(k["text"], s["text"])}
         if len(same) == 1:
             cls = same.pop()
     if cls == "unclassified":
         # ... and the same statement with other names for its local variables (see `shape`)
-        same = {k["class"] for k in known if k["file"] == s["file"] and shape(k["text"]) == shape(s["text"])}
+        same = {k["class"] for k in known if k["file"] == s["file"] and same_text(shape(k["text"]), shape(s["text"]))}
         if len(same) == 1:
             cls = same.pop()
     classified.append(dict(s, **{"class": cls}))
